@@ -159,7 +159,7 @@ theorem fi_runTaskDone {st st' : State} {u : Nat} (h : FInv st)
     split
     · rename_i f hf
       split
-      · refine finv_resolveFut i1 f .result rfl ?_
+      · refine finv_resolveFut i1 f .result rfl (i1.role_lt f (.onC g) hf) (by simp) ?_
         intro _ t g' u' s e hlib hb
         rcases i1.sj_blk t g' u' s e f hlib hb with hm | hm
         · have := i1.role_uniq f (.hw u') (.onC g) hm hf
@@ -167,7 +167,18 @@ theorem fi_runTaskDone {st st' : State} {u : Nat} (h : FInv st)
         · exact hm
       · exact i1
     · exact i1
-  generalize taskDoneMid (taskDoneCore st u g sc) g = M at ht i2
+  have hsflt : ∀ sf, (st.tasks u).startFut = some sf → sf < (taskDoneMid (taskDoneCore st u g sc) g).nFuts := by
+    intro sf hsf
+    have e1 : (taskDoneMid (taskDoneCore st u g sc) g).nFuts = st.nFuts := by
+      unfold taskDoneMid
+      split
+      · split
+        · rw [(frame_resolveFut _ _ _).nFuts]; rfl
+        · rfl
+      · rfl
+    rw [e1]; exact h.role_lt sf (.start u) hsf
+  generalize taskDoneMid (taskDoneCore st u g sc) g = M at ht i2 hsflt
+  generalize hsfo : (st.tasks u).startFut = sfo at ht hsflt
   unfold taskDoneTail at ht
   simp only [] at ht
   repeat' (split at ht)
@@ -176,7 +187,8 @@ theorem fi_runTaskDone {st st' : State} {u : Nat} (h : FInv st)
     subst ht
     first
     | exact i2
-    | exact finv_resolveFut i2 _ _ rfl (fun hc => by cases hc)
+    | exact finv_resolveFut i2 _ _ rfl (hsflt _ rfl)
+        (by intro hc; injection hc with hc; simp_all) (fun hc => by cases hc)
     | exact finv_fsame i2 (FSame.of_xc (xc_cancelScope _ _ _))
     | exact finv_fsame i2 (fsame_setGroup _ _ _ (.inl rfl))
     | exact finv_fsame i2 ((fsame_setGroup _ _ _ (.inl rfl)).trans
